@@ -79,6 +79,33 @@ def form_of(seq, ix):
     return None
 
 
+def block_context(f, s):
+    """Comment form of a sink whose own template carries no opener: the block may be opened and closed by separate
+    writes of the same function — an earlier write ending in `\"\"\"` / `/**` / `/*` and a later one with the matching
+    closer, both on the same branch (same non-loop guards) as the sink."""
+    def branch(x):
+        return [(fr.get('k'), bool(fr.get('neg')), vt.ckey(fr.get('c')) if fr.get('k') == 'if' else str(fr.get('variants'))) for fr in x.get('guard', []) if fr.get('k') in ('if', 'arm')]
+
+    def text(x):
+        out = []
+        for y in vt.walk(x['fmt']):
+            if y.get('k') == 'fmt':
+                out.extend(p2.get('lit', '') for p2 in y.get('parts', []) if isinstance(p2, dict))
+        return ''.join(out)
+    mine = branch(s)
+    before = [x for x in f['sites'] if x['line'] < s['line'] and branch(x) == mine[:len(branch(x))]]
+    after = [x for x in f['sites'] if x['line'] > s['line'] and branch(x) == mine[:len(branch(x))]]
+    for opener, closer, form in (('"""', '"""', 'DOCSTRING'), ('/**', '*/', 'BLOCK'), ('/*', '*/', 'BLOCK')):
+        o = [x for x in before if text(x).rstrip().endswith(opener) and not [fr for fr in x.get('guard', []) if fr.get('k') in ('for', 'while', 'loop')]]
+        c = [x for x in after if closer in text(x) and not [fr for fr in x.get('guard', []) if fr.get('k') in ('for', 'while', 'loop')]]
+        if o and c:
+            # nothing between opener and sink may already close the block
+            between = [x for x in f['sites'] if o[-1]['line'] < x['line'] < s['line'] and closer in text(x)]
+            if not between:
+                return form
+    return None
+
+
 def adequate(form, via, sep):
     vs = list(via)
     if form == 'LINE':
@@ -129,7 +156,7 @@ def run(ctx, rep):
                     if not (c[1].endswith('.comments') or c[1].endswith('.comments.[]') or c[1] in ('str', '[String]', '[String].[]', 'String', 'Vec<String>', 'Vec<String>.[]')):
                         continue
                     sinks += 1
-                    form = form_of(seq, ix)
+                    form = form_of(seq, ix) or block_context(f, s)
                     be = f['file'].split('/')[-1].replace('.rs', '')
                     sep = next((x[2] for x in reversed(seq[:ix]) if x[0] == 'joined'), None)
                     key = f"{be}:{f['name']}:{form or 'UNKNOWN'}" + (':joined' if sep is not None else '')
